@@ -218,3 +218,50 @@ func (c *ExpiringContext) Err() error {
 	return nil
 }
 func (c *ExpiringContext) Deadline() (time.Time, bool) { return time.Now().Add(time.Hour), true }
+
+// FlipContext is a context that ends by itself at its k-th observation (a
+// call of Err or Done): the deterministic form of "the context is cancelled
+// just after the callee looked at it".  Until then it is a live context
+// without deadline; afterwards Err is context.Canceled and Done is closed.
+type FlipContext struct {
+	mu   sync.Mutex
+	left int
+	done chan struct{}
+	err  error
+}
+
+func NewFlipContext(k int) *FlipContext { return &FlipContext{left: k, done: make(chan struct{})} }
+
+func (c *FlipContext) observe() {
+	c.mu.Lock()
+	defer c.mu.Unlock()
+	if c.err != nil {
+		return
+	}
+	if c.left <= 0 {
+		c.err = context.Canceled
+		close(c.done)
+		return
+	}
+	c.left--
+}
+
+// Cancel ends the context now.
+func (c *FlipContext) Cancel() {
+	c.mu.Lock()
+	defer c.mu.Unlock()
+	if c.err == nil {
+		c.err = context.Canceled
+		close(c.done)
+	}
+}
+
+func (c *FlipContext) Done() <-chan struct{} { c.observe(); return c.done }
+func (c *FlipContext) Err() error {
+	c.observe()
+	c.mu.Lock()
+	defer c.mu.Unlock()
+	return c.err
+}
+func (c *FlipContext) Deadline() (time.Time, bool) { return time.Time{}, false }
+func (c *FlipContext) Value(any) any               { return nil }
